@@ -1,6 +1,8 @@
 package rules
 
 import (
+	"os"
+	"sort"
 	"go/token"
 	"go/types"
 	"strings"
@@ -187,6 +189,7 @@ func checkC07(c *Ctx) {
 	c07OnceComplete(c, fns)
 	c07SendVsClose(c, fns)
 	c06IndexGuard(c, fns, "R-index-guard")
+	c07AnswerNonNil(c, fns)
 
 	// ---- R-closed-recv
 	closedFields := map[string]bool{}
@@ -591,4 +594,276 @@ func c07SendVsClose(c *Ctx, fns []*ssa.Function) {
 	if n == 0 {
 		c.R.Hold("R-send-vs-close", "no send on a channel taken from a table whose channels are closed", "", "")
 	}
+}
+
+// ---------------------------------------------------------------- R-answer-nonnil
+// The Connector operations dereference the answer their transport returns whenever the error is nil. A transport method
+// that can return (nil answer, nil error) — for instance because a frame that merely carries the call's id, without
+// result or error, is taken for the answer — makes the client panic on server-controlled input. For every function on
+// the answer path (returning *json.RawMessage and error) each `return v, nil` must have v provably non-nil: the address
+// of a local, a value guarded by `v != nil`, a value paired with a flag that is only set where v is assigned a non-nil
+// value, or the result of a callee with the same guarantee. Functions that legitimately return (nil, nil) to mean "not
+// the answer yet" may do so; what they return is then treated as possibly nil by their callers.
+func c07AnswerNonNil(c *Ctx, fns []*ssa.Function) {
+	isAnswerFn := func(fn *ssa.Function) bool {
+		r := fn.Signature.Results()
+		return r.Len() == 2 && ir.TypeStr(r.At(0).Type()) == "*encoding/json.RawMessage" && ir.TypeStr(r.At(1).Type()) == "error"
+	}
+	mayNilNil := map[*ssa.Function]bool{}
+	var nonNil func(fn *ssa.Function, v ssa.Value, use *ssa.BasicBlock, d int) bool
+	nonNil = func(fn *ssa.Function, v ssa.Value, use *ssa.BasicBlock, d int) bool {
+		if v == nil || d > 6 {
+			return false
+		}
+		// guarded at the use
+		for _, g := range flow.Guards(fn, use) {
+			if gv, op, ok := nilCompare(g.If.Cond); ok && gv == v {
+				if (op == token.NEQ) == g.Branch {
+					return true
+				}
+			}
+		}
+		switch x := v.(type) {
+		case *ssa.Alloc:
+			return true
+		case *ssa.Const:
+			return false
+		case *ssa.Extract:
+			if call, ok := x.Tuple.(*ssa.Call); ok && x.Index == 0 {
+				callees := ir.Callees(c.G, call)
+				if len(callees) == 0 {
+					return false
+				}
+				for _, cal := range callees {
+					if !c.P.IsLib(cal) || !isAnswerFn(cal) || mayNilNil[cal] {
+						return false
+					}
+				}
+				// non-nil provided the error was nil on this path: the use is on the err == nil edge
+				for _, g := range flow.Guards(fn, use) {
+					if gv, op, ok := nilCompare(g.If.Cond); ok && ir.TypeStr(gv.Type()) == "error" {
+						if ex, ok := gv.(*ssa.Extract); ok && ex.Tuple == x.Tuple {
+							if (op == token.EQL) == g.Branch {
+								return true
+							}
+						}
+					}
+				}
+				return false
+			}
+			// comma-ok receive / lookup: unknown
+			return false
+		case *ssa.Phi:
+			// (a) every edge non-nil
+			all := true
+			for i, e := range x.Edges {
+				if e == ssa.Value(x) {
+					continue
+				}
+				if !nonNil(fn, e, x.Block().Preds[i], d+1) {
+					all = false
+				}
+			}
+			if all {
+				return true
+			}
+			// (b) paired with a flag: the use is controlled by the true edge of a bool phi F of the same block whose
+			// edges are true only where this phi's edge is non-nil
+			for _, g := range flow.Guards(fn, use) {
+				fphi, ok := g.If.Cond.(*ssa.Phi)
+				if !ok || !g.Branch || fphi.Block() != x.Block() || len(fphi.Edges) != len(x.Edges) {
+					continue
+				}
+				paired := true
+				for i, fe := range fphi.Edges {
+					ve := x.Edges[i]
+					switch {
+					case fe == ssa.Value(fphi):
+						if ve != ssa.Value(x) && !nonNil(fn, ve, x.Block().Preds[i], d+1) {
+							paired = false
+						}
+					default:
+						if cst, ok := fe.(*ssa.Const); ok && cst.Value != nil && cst.Value.String() == "false" {
+							continue
+						}
+						if ve == ssa.Value(x) || !nonNil(fn, ve, x.Block().Preds[i], d+1) {
+							paired = false
+						}
+					}
+				}
+				if paired {
+					return true
+				}
+			}
+			return false
+		case *ssa.UnOp:
+			if x.Op == token.MUL {
+				if al, ok := x.X.(*ssa.Alloc); ok {
+					// a captured / spilled local: all stored values non-nil
+					okAll, n := true, 0
+					for _, r := range *al.Referrers() {
+						if st, ok := r.(*ssa.Store); ok && st.Addr == ssa.Value(al) {
+							if ir.IsNilConst(st.Val) {
+								continue // `var result *T` zero initialisation; what counts is what is assigned later
+							}
+							n++
+							if !nonNil(fn, st.Val, st.Block(), d+1) {
+								okAll = false
+							}
+						}
+						// assigned inside a closure that returns the error of the same call: `result, err = f(); return err`
+						// — whoever sees the closure (the retry executor) report nil sees a non-nil result
+						if mc, ok := r.(*ssa.MakeClosure); ok {
+							cf, _ := mc.Fn.(*ssa.Function)
+							if cf == nil {
+								continue
+							}
+							for bi, b := range mc.Bindings {
+								if b != ssa.Value(al) || bi >= len(cf.FreeVars) {
+									continue
+								}
+								fv := cf.FreeVars[bi]
+								for _, fr := range *fv.Referrers() {
+									st, ok := fr.(*ssa.Store)
+									if !ok || st.Addr != ssa.Value(fv) {
+										continue
+									}
+									n++
+									good := false
+									if ex, ok := st.Val.(*ssa.Extract); ok && ex.Index == 0 {
+										if call, ok := ex.Tuple.(*ssa.Call); ok {
+											okCallee := true
+											for _, cal := range ir.Callees(c.G, call) {
+												if !isAnswerFn(cal) || mayNilNil[cal] {
+													okCallee = false
+													if os.Getenv("NILNIL_DEBUG") != "" {
+														println("      callee", fname(cal), isAnswerFn(cal), mayNilNil[cal])
+													}
+												}
+											}
+											// the closure returns that call's error
+											retErr := false
+											ir.EachInstr(cf, func(_ *ssa.BasicBlock, _ int, in ssa.Instruction) {
+												if rr, ok := in.(*ssa.Return); ok && len(ir.Results(rr)) == 1 {
+													if e2, ok := unspill(ir.Results(rr)[0]).(*ssa.Extract); ok && e2.Tuple == ex.Tuple && e2.Index == 1 {
+														retErr = true
+													}
+												}
+											})
+											good = okCallee && retErr
+										}
+									}
+									if !good {
+										okAll = false
+										if os.Getenv("NILNIL_DEBUG") != "" {
+											println("    closure store not good in", fname(cf), st.Val.String())
+										}
+									}
+								}
+							}
+						}
+					}
+					return okAll && n > 0
+				}
+			}
+			return false
+		case *ssa.Parameter:
+			return false
+		}
+		return false
+	}
+	var cands []*ssa.Function
+	for _, fn := range fns {
+		if isAnswerFn(fn) {
+			cands = append(cands, fn)
+		}
+	}
+	compute := func(fn *ssa.Function) bool {
+		may := false
+		ir.EachInstr(fn, func(blk *ssa.BasicBlock, _ int, in ssa.Instruction) {
+			r, ok := in.(*ssa.Return)
+			if !ok || blk == fn.Recover {
+				return
+			}
+			rs := ir.Results(r)
+			if !ir.IsNilConst(rs[1]) {
+				// an error value: fine unless it may be nil itself (tail call handled below)
+				tc, ok := rs[1].(*ssa.Extract)
+				t0, ok0 := rs[0].(*ssa.Extract)
+				if ok && ok0 && tc.Tuple == t0.Tuple { // `return f(...)`: whatever f may return
+					if call, ok := tc.Tuple.(*ssa.Call); ok {
+						for _, cal := range ir.Callees(c.G, call) {
+							if mayNilNil[cal] {
+								may = true
+							}
+						}
+					}
+				}
+				return
+			}
+			if !nonNil(fn, rs[0], blk, 0) {
+				may = true
+				if os.Getenv("NILNIL_DEBUG") != "" {
+					println("  MAY", fname(fn), c.Pos(r.Pos()), rs[0].String())
+				}
+			}
+		})
+		return may
+	}
+	// greatest fixpoint from "nobody may": iterate until stable
+	for iter := 0; iter < 6; iter++ {
+		changed := false
+		for _, fn := range cands {
+			if m := compute(fn); m != mayNilNil[fn] {
+				mayNilNil[fn] = m
+				changed = true
+			}
+		}
+		if !changed {
+			break
+		}
+	}
+	if os.Getenv("NILNIL_DEBUG") != "" {
+		for _, fn := range cands {
+			println("NILNIL", fname(fn), mayNilNil[fn])
+		}
+	}
+	// the methods the Connector operations call: the transport's request method
+	tr := c.transportIface()
+	if tr == nil {
+		c.R.Break("anchor not found: the clients' transport interface (by shape)")
+		return
+	}
+	it := tr.Underlying().(*types.Interface)
+	n := 0
+	for i := 0; i < it.NumMethods(); i++ {
+		sig := it.Method(i).Type().(*types.Signature)
+		if sig.Results().Len() != 2 || ir.TypeStr(sig.Results().At(0).Type()) != "*encoding/json.RawMessage" {
+			continue
+		}
+		for _, T := range c.P.Implementers(it) {
+			m := c.P.Method(T, it.Method(i).Name())
+			if m == nil {
+				continue
+			}
+			n++
+			c.R.Check(!mayNilNil[m], "R-answer-nonnil", ir.TypeKey(T)+"."+m.Name()+" never returns (nil, nil)", c.Pos(m.Pos()), "every `return v, nil` on the answer path has v non-nil",
+				sprintf("%s can return a nil answer together with a nil error (through %s): the client operations dereference the answer whenever the error is nil, so a frame the server controls crashes the client", fname(m), nilNilChain(c, m, mayNilNil)))
+		}
+	}
+	c.R.Min("R-answer-nonnil", 3)
+}
+
+func nilNilChain(c *Ctx, fn *ssa.Function, may map[*ssa.Function]bool) string {
+	var names []string
+	for f := range c.ReachSync(fn) {
+		if may[f] && f != fn {
+			names = append(names, fname(f))
+		}
+	}
+	sort.Strings(names)
+	if len(names) > 4 {
+		names = names[:4]
+	}
+	return strings.Join(names, ", ")
 }
